@@ -10,7 +10,7 @@
     - old code: in the first and third branch, but in the middle branch
       (0 < st < min_acc) it maps e_z to (x, |y|, z): the sign of rot_y is
       dropped ([rotate_polar_refuted], finding F10);
-    - repaired code: always ([rotate_new_polar]).
+    - candidate repair (NOT in the tree): always ([rotate_new_polar]).
     SWITCH POINT: lemma [rotate_base_eq] says which version Base/Vec3.v is. *)
 From Coq Require Import Reals ZArith List Bool Lra Lia.
 From Celer Require Import Base.Num Base.NumR Base.Stream Base.Vec3 C20.RotateVariants.
@@ -283,26 +283,28 @@ Section Results.
   Qed.
 End Results.
 
-(** ** SWITCH POINT (switched after repair 176dbfb).  Base/Vec3.v [rotate] is, by
-    computation, the REPAIRED code.  History: before the repair it was the OLD code;
+(** ** SWITCH POINT.  Base/Vec3.v [rotate] is, by computation, the code as pinned
+    ([rotate_old]).  A repair ([rotate_new]) was tried upstream and WITHDRAWN (an
+    existing geometry test pins sampled directions), so it is a candidate repair,
+    not in the tree.  Should it ever land:
     After Base/Vec3.v is changed to the repaired middle branch, replace
     [rotate_old] by [rotate_new] in the statement of [rotate_base_eq] (the proof
     stays [reflexivity]), [rotate_old_isometry] by [rotate_new_isometry] in
     [rotate_base_isometry], and use the second proof of [rotate_base_polar]. *)
-Lemma rotate_base_eq (min_acc : R) (d rot : vec3 R) : rotate min_acc d rot = rotate_new min_acc d rot.
+Lemma rotate_base_eq (min_acc : R) (d rot : vec3 R) : rotate min_acc d rot = rotate_old min_acc d rot.
 Proof. reflexivity. Qed.
 
 Lemma rotate_base_isometry min_acc rot : 0 < min_acc -> unit3 rot -> rot_isometry (rotate min_acc) rot.
 Proof.
-  intros Ha Hr. pose proof (rotate_new_isometry min_acc rot Ha Hr) as [H1 H2].
+  intros Ha Hr. pose proof (rotate_old_isometry min_acc rot Ha Hr) as [H1 H2].
   split; intros; rewrite ?rotate_base_eq; auto.
 Qed.
 
 Lemma rotate_base_polar min_acc rot : 0 < min_acc -> unit3 rot -> good_axis min_acc rot ->
   rot_polar (rotate min_acc) rot.
 Proof.
-  intros Ha Hr _ d Hd. rewrite rotate_base_eq. apply rotate_new_polar; assumption.
-  (* before the repair (176dbfb):  intros Ha Hr Hg d Hd. rewrite rotate_base_eq. apply rotate_old_polar; assumption. *)
+  intros Ha Hr Hg d Hd. rewrite rotate_base_eq. apply rotate_old_polar; assumption.
+  (* with the candidate repair in Base:  intros Ha Hr _ d Hd. rewrite rotate_base_eq. apply rotate_new_polar; assumption. *)
 Qed.
 
 (** make_unit_vector of a non-zero vector is unit *)
